@@ -200,7 +200,191 @@ def t_alias(fn):
     return cnt[0] > 0
 
 
-KINDS = {'rename': t_rename, 'swap': t_swap, 'flip': t_flip, 'alias': t_alias}
+def _terminates(body):
+    return bool(body) and isinstance(body[-1], (ast.Return, ast.Raise, ast.Continue, ast.Break))
+
+
+def t_early(fn):
+    """`if c: A(ends in return/raise/continue/break) else: B` -> `if c: A` followed by B; and the reverse for the last such if of a block"""
+    n = [0]
+
+    def rec(body):
+        out = []
+        for i, st in enumerate(body):
+            for fld in ('body', 'orelse', 'finalbody'):
+                b = getattr(st, fld, None)
+                if isinstance(b, list) and b and isinstance(b[0], ast.stmt) and not isinstance(st, (ast.FunctionDef, ast.AsyncFunctionDef, ast.ClassDef)):
+                    setattr(st, fld, rec(b))
+            for h in getattr(st, 'handlers', []) or []:
+                h.body = rec(h.body)
+            if isinstance(st, ast.If) and st.orelse and _terminates(st.body) and not (len(st.orelse) == 1 and isinstance(st.orelse[0], ast.If)):
+                tail = st.orelse
+                st.orelse = []
+                out.append(st)
+                out.extend(tail)
+                n[0] += 1
+            elif isinstance(st, ast.If) and not st.orelse and _terminates(st.body) and i + 1 < len(body) and i == len(body) - 2 and \
+                    not isinstance(body[i + 1], (ast.FunctionDef, ast.ClassDef)):
+                st.orelse = [body[i + 1]]
+                out.append(st)
+                n[0] += 1
+                return out
+            else:
+                out.append(st)
+        return out
+    fn.body = rec(fn.body)
+    return n[0] > 0
+
+
+class _DeMorgan(ast.NodeTransformer):
+    def __init__(self):
+        self.n = 0
+
+    def visit_UnaryOp(self, node):
+        self.generic_visit(node)
+        if isinstance(node.op, ast.Not) and isinstance(node.operand, ast.BoolOp):
+            b = node.operand
+            op = ast.Or() if isinstance(b.op, ast.And) else ast.And()
+            self.n += 1
+            return ast.copy_location(ast.BoolOp(op=op, values=[ast.UnaryOp(op=ast.Not(), operand=v) for v in b.values]), node)
+        return node
+
+    def visit_BoolOp(self, node):
+        self.generic_visit(node)
+        # a or b -> not (not a and not b)   only in test positions (truth value): handled by visit_If
+        return node
+
+    def visit_If(self, node):
+        self.generic_visit(node)
+        t = node.test
+        if isinstance(t, ast.BoolOp) and len(t.values) == 2:
+            op = ast.Or() if isinstance(t.op, ast.And) else ast.And()
+            node.test = ast.UnaryOp(op=ast.Not(), operand=ast.BoolOp(op=op, values=[
+                v.operand if isinstance(v, ast.UnaryOp) and isinstance(v.op, ast.Not) else ast.UnaryOp(op=ast.Not(), operand=v) for v in t.values]))
+            self.n += 1
+        return node
+
+
+def t_demorgan(fn):
+    d = _DeMorgan()
+    d.visit(fn)
+    return d.n > 0
+
+
+def t_comp2loop(fn):
+    """`x = [e for t in it if c]` -> `x = []` + explicit loop (statement level only)"""
+    n = [0]
+    used = {x.id for x in ast.walk(fn) if isinstance(x, ast.Name)}
+
+    def rec(body):
+        out = []
+        for st in body:
+            for fld in ('body', 'orelse', 'finalbody'):
+                b = getattr(st, fld, None)
+                if isinstance(b, list) and b and isinstance(b[0], ast.stmt) and not isinstance(st, (ast.FunctionDef, ast.AsyncFunctionDef, ast.ClassDef)):
+                    setattr(st, fld, rec(b))
+            for h in getattr(st, 'handlers', []) or []:
+                h.body = rec(h.body)
+            v = st.value if isinstance(st, ast.Assign) and len(st.targets) == 1 and isinstance(st.targets[0], ast.Name) else None
+            if isinstance(v, ast.ListComp) and len(v.generators) == 1 and not v.generators[0].is_async and \
+                    st.targets[0].id not in {x.id for x in ast.walk(v) if isinstance(x, ast.Name)} and \
+                    not ({x.id for x in ast.walk(v.generators[0].target) if isinstance(x, ast.Name)} & (used - {x.id for x in ast.walk(v) if isinstance(x, ast.Name)})):
+                acc = st.targets[0].id
+                gen = v.generators[0]
+                app = ast.Expr(value=ast.Call(func=ast.Attribute(value=ast.Name(id=acc, ctx=ast.Load()), attr='append', ctx=ast.Load()), args=[v.elt], keywords=[]))
+                inner = [app]
+                for c in reversed(gen.ifs):
+                    inner = [ast.If(test=c, body=inner, orelse=[])]
+                out.append(ast.copy_location(ast.Assign(targets=[ast.Name(id=acc, ctx=ast.Store())], value=ast.List(elts=[], ctx=ast.Load())), st))
+                out.append(ast.copy_location(ast.For(target=gen.target, iter=gen.iter, body=inner, orelse=[]), st))
+                n[0] += 1
+            else:
+                out.append(st)
+        return out
+    fn.body = rec(fn.body)
+    return n[0] > 0
+
+
+class _ForUnpack(ast.NodeTransformer):
+    def __init__(self, used):
+        self.n = 0
+        self.used = used
+
+    def visit_For(self, node):
+        self.generic_visit(node)
+        if isinstance(node.target, ast.Tuple) and all(isinstance(e, ast.Name) for e in node.target.elts):
+            nm = 'item_%d' % self.n
+            while nm in self.used:
+                nm += '_'
+            un = ast.Assign(targets=[node.target], value=ast.Name(id=nm, ctx=ast.Load()))
+            node.target = ast.Name(id=nm, ctx=ast.Store())
+            node.body = [un] + node.body
+            self.n += 1
+        return node
+
+
+def t_forunpack(fn):
+    f = _ForUnpack({x.id for x in ast.walk(fn) if isinstance(x, ast.Name)})
+    f.visit(fn)
+    return f.n > 0
+
+
+class _ToIfExp(ast.NodeTransformer):
+    def __init__(self):
+        self.n = 0
+
+    def visit_If(self, node):
+        self.generic_visit(node)
+        if len(node.body) == 1 and len(node.orelse) == 1 and isinstance(node.body[0], ast.Assign) and isinstance(node.orelse[0], ast.Assign) and \
+                len(node.body[0].targets) == 1 and isinstance(node.body[0].targets[0], ast.Name) and \
+                ast.dump(node.body[0].targets[0]) == ast.dump(node.orelse[0].targets[0]):
+            self.n += 1
+            return ast.copy_location(ast.Assign(targets=node.body[0].targets, value=ast.IfExp(test=node.test, body=node.body[0].value, orelse=node.orelse[0].value)), node)
+        if len(node.body) == 1 and len(node.orelse) == 1 and isinstance(node.body[0], ast.Return) and isinstance(node.orelse[0], ast.Return) and \
+                node.body[0].value is not None and node.orelse[0].value is not None:
+            self.n += 1
+            return ast.copy_location(ast.Return(value=ast.IfExp(test=node.test, body=node.body[0].value, orelse=node.orelse[0].value)), node)
+        return node
+
+
+def t_ifexp(fn):
+    t = _ToIfExp()
+    t.visit(fn)
+    return t.n > 0
+
+
+def t_hoist(fn):
+    """the first call argument that is itself a call is bound to a fresh local first (simple statements only)"""
+    used = {x.id for x in ast.walk(fn) if isinstance(x, ast.Name)}
+    n = [0]
+
+    def rec(body):
+        out = []
+        for st in body:
+            for fld in ('body', 'orelse', 'finalbody'):
+                b = getattr(st, fld, None)
+                if isinstance(b, list) and b and isinstance(b[0], ast.stmt) and not isinstance(st, (ast.FunctionDef, ast.AsyncFunctionDef, ast.ClassDef)):
+                    setattr(st, fld, rec(b))
+            for h in getattr(st, 'handlers', []) or []:
+                h.body = rec(h.body)
+            v = st.value if isinstance(st, (ast.Assign, ast.Expr, ast.Return)) else None
+            if isinstance(v, ast.Call) and isinstance(v.func, (ast.Name, ast.Attribute)) and _pure(v.func) and v.args and isinstance(v.args[0], ast.Call) and \
+                    not any(isinstance(x, (ast.Yield, ast.YieldFrom, ast.Lambda)) for x in ast.walk(v)):
+                nm = 'arg_%d' % n[0]
+                while nm in used:
+                    nm += '_'
+                used.add(nm)
+                out.append(ast.copy_location(ast.Assign(targets=[ast.Name(id=nm, ctx=ast.Store())], value=v.args[0]), st))
+                v.args[0] = ast.Name(id=nm, ctx=ast.Load())
+                n[0] += 1
+            out.append(st)
+        return out
+    fn.body = rec(fn.body)
+    return n[0] > 0
+
+
+KINDS = {'rename': t_rename, 'swap': t_swap, 'flip': t_flip, 'alias': t_alias, 'early': t_early, 'demorgan': t_demorgan,
+         'comp2loop': t_comp2loop, 'forunpack': t_forunpack, 'ifexp': t_ifexp, 'hoist': t_hoist}
 
 
 # ------------------------------------------------------------------------ driver
